@@ -22,7 +22,7 @@ HeapValues == <<
   O(<<>>), O(<< <<"a", JStr("x")>> >>), O(<< <<"a", JInt(1)>> >>),
   O(<< <<"a", JStr("x")>>, <<"b", JInt(2)>> >>), O(<< <<"a", JStr("x")>>, <<"z", JStr("y")>> >>),
   O(<< <<"z", JInt(1)>> >>), O(<< <<"a", JStr("x")>>, <<"class", JInt(3)>> >>), JInt(5),
-  O(<< <<"a", JStr("x")>>, <<"level", JInt(2)>> >>),
+  O(<< <<"a", JStr("x")>>, <<"level", JInt(2)>> >>), O(<< <<"a", JStr("x")>>, <<"class_", JStr("y")>> >>),
   O(<< <<"a", JStr("xy")>>, <<"b", JStr("q")>> >>), O(<< <<"a", JStr("xy")>> >>),
   JArr(<<JInt(1)>>), JArr(<<JStr("x"), JStr("y")>>), JArr(<<JInt(1), JStr("x")>>), JArr(<<JInt(1), JInt(2)>>),
   JStr("x") >>
@@ -83,7 +83,9 @@ HKw == [default |-> JNull, enum |-> << JNull >>, required |-> <<"z">>, descripti
         depsL |-> << <<"z", <<"a">> >> >>, const |-> JNull]
 HProps == << Prop("a", "a", FALSE, IntegerE), Prop("z", "z", TRUE, StringE) >>
 PropChoices == { Prop("z", "z", TRUE, StringE), Prop("a", "a", TRUE, IntegerE),
-                 Prop("b", "b", TRUE, StringE) }
+                 Prop("b", "b", TRUE, StringE),
+                 (* replaces the RENAMED property class_ (JSON name "class") by one whose JSON name is its key *)
+                 Prop("class_", "class_", FALSE, StringE) }
 
 Op(name, target, arg) == [op |-> name, x |-> target, arg |-> arg]
 IsReconf(o) == o.op # "validate"
